@@ -126,6 +126,17 @@ def related_tables(rng):
     return t1, t2
 
 
+def _has_tag(b, tag):
+    try:
+        b.get_mask(tag=tag)
+        return True
+    except Exception:
+        return False
+
+
+APP_TAG_SETS = [set(t) for t in c08.TAGSETS]
+
+
 def related_routes(rng):
     """(small, big): a route on a machine of a few chips, then a route with
     the same search radius on a much larger machine whose single net grows a
@@ -401,8 +412,24 @@ def execute(desc, ctx=None, mutate=False, seed=0):
         for op in case["ops"]:
             try:
                 if op[0] == "add":
+                    tags = op[5]
+                    if isinstance(tags, tuple) and tags and tags[0] == "set":
+                        # a constant of the application, shared by every bit
+                        # field this process ever defines
+                        tags = APP_TAG_SETS[tags[1]]
+                    elif isinstance(tags, tuple) and tags and \
+                            tags[0] == "tuple":
+                        tags = tuple(tags[1])
                     bf(**op[1]).add_field(op[2], length=op[3], start_at=op[4],
-                                          tags=op[5])
+                                          tags=tags)
+                    if ctx is not None:
+                        ctx.hit("argument_snapshot")
+                        for k_, want_ in enumerate(c08.TAGSETS):
+                            check(APP_TAG_SETS[k_] == set(want_),
+                                  "argument-mutated",
+                                  "add_field(): the set passed as tags= is "
+                                  "now %r" % (sorted(APP_TAG_SETS[k_]),),
+                                  call="add_field")
                     log.append("ok")
                 elif op[0] == "val":
                     bf(**op[1])
@@ -412,7 +439,10 @@ def execute(desc, ctx=None, mutate=False, seed=0):
                     log.append("ok")
                 else:
                     b = bf(**op[1])
-                    log.append([b.get_value(), b.get_mask()])
+                    log.append([b.get_value(), b.get_mask(),
+                                sorted([t, b.get_mask(tag=t)]
+                                       for t in ("t1", "t2", "t3")
+                                       if _has_tag(b, t))])
             except RecursionError:
                 log.append("RecursionError")
                 break
@@ -527,6 +557,9 @@ def setup(tier):
 
 
 def run(case, ctx):
+    for k_, t_ in enumerate(c08.TAGSETS):   # undo what a broken tree did
+        APP_TAG_SETS[k_].clear()
+        APP_TAG_SETS[k_].update(t_)
     own = case["probe"][0]
     same_family = mutated = False
     for desc, mutate in case["history"]:
